@@ -3,7 +3,7 @@ use sway_types::Span;
 
 use crate::CompileError;
 
-use super::patstack::PatStack;
+use super::{patstack::PatStack, pattern::Pattern};
 
 /// A `Matrix` is a `Vec<PatStack>` that is implemented with special methods
 /// particular to the match exhaustivity algorithm.
@@ -73,17 +73,32 @@ impl Matrix {
         Ok((self.rows.len(), n))
     }
 
-    /// Computes Σ, where Σ is a `PatStack` containing the first element of
-    /// every row of the `Matrix`.
+    /// Computes Σ, where Σ is a `PatStack` containing the root constructors
+    /// that appear in the first element of every row of the `Matrix`.
+    ///
+    /// A wildcard is not a constructor and contributes nothing to Σ (rows
+    /// starting with a wildcard are kept by both *S(c, P)* and *D(P)*). Every
+    /// alternative of an or-pattern contributes its own root constructor.
     pub(crate) fn compute_sigma(
         &self,
         handler: &Handler,
         span: &Span,
     ) -> Result<PatStack, ErrorEmitted> {
+        fn push_root_constructors(pat: Pattern, sigma: &mut PatStack) {
+            match pat {
+                Pattern::Wildcard => {}
+                Pattern::Or(alternatives) => {
+                    for alternative in alternatives.into_iter() {
+                        push_root_constructors(alternative, sigma);
+                    }
+                }
+                pat => sigma.push(pat.into_root_constructor()),
+            }
+        }
+
         let mut pat_stack = PatStack::empty();
         for row in self.rows.iter() {
-            let first = row.first(handler, span)?;
-            pat_stack.push(first.into_root_constructor())
+            push_root_constructors(row.first(handler, span)?, &mut pat_stack);
         }
         Ok(pat_stack.remove_duplicates())
     }
